@@ -112,6 +112,10 @@ class BaseG2Ciphersuite(ABC):
     @staticmethod
     def KeyValidate(PK: BLSPubkey) -> bool:
         try:
+            # A public key is exactly 48 bytes; longer strings must not be
+            # accepted on the strength of their low 384 bits alone.
+            if len(PK) != 48:
+                return False
             pubkey_point = pubkey_to_G1(PK)
         except (ValidationError, ValueError, AssertionError):
             return False
